@@ -516,6 +516,35 @@ def acmd_family(seed, n, maxlen=5, budget=8000):
     return out
 
 
+def tree_group_family(seed, n, maxlen=4, budget=6000, kinds=("alt", "adj", "acmd")):
+    """subcommands whose own level has choices / adjacent groups / adjacent subcommands (TreeLine.tla)"""
+    rnd = random.Random(seed)
+    out = []
+    while len(out) < n:
+        i = len(out)
+        subs = []
+        for j in range(1 + i % 2):
+            fam = {"alt": alt_family, "adj": adj_family, "acmd": acmd_family}[kinds[(i + j) % len(kinds)]]
+            subs.append(fam(seed * 100 + i * 7 + j, 3, maxlen=maxlen, budget=budget)[rnd.randrange(3)])
+        root_named = [[], [sw("r1", "-R", "--rootsw")], [ar("r2", "many", "str", "--rootarg")],
+                      [sw("r1", "-R"), ar("r2", "opt", "int", "--rootarg")]][rnd.randrange(4)]
+        names = [["run"], ["go", "g2"]]
+        cmds = [cmd(names[j], sub) for j, sub in enumerate(subs)]
+        lvl = level(root_named, cmdtail(cmds, optional=(i % 5 == 4)), version=(i % 4 == 3))
+        d = mkdef(f"tg{seed}_{i}", lvl, maxlen=maxlen, extras=rnd.choice([("help",), ("unk",), ("dd",), ("help", "unk")]),
+                  spells=("sep",), words=("1",))
+        d["empty"] = level([], NOTAIL)
+        flags, args = set(), set()
+        for l in [d] + subs:
+            for f in l["named"]:
+                for it in field_leaves(f):
+                    (args if it["kind"] == "arg" else flags).update(it["shorts"])
+        if flags & args:
+            continue
+        out.append(d)
+    return out
+
+
 def galphabet_size(d):
     a = d["alpha"]
     n = len(a["extras"]) + len(a["words"])
